@@ -151,6 +151,9 @@ CLAIMED["C13"] = dict(
               "execution over tree shapes for the walkers (labelled BOUNDED)",
     design="DESIGN.md §3 C13")
 
+from contracts.C18 import MANIFEST_ENTRY as _C18_ENTRY  # noqa: E402
+CLAIMED["C18"] = dict(_C18_ENTRY)
+
 PENDING = {}
 
 ALL = [f"C{i:02d}" for i in range(1, 21)]
